@@ -924,6 +924,54 @@ func c18GenWindow(r *vRand) c18Case {
 	return cs
 }
 
+// c18GenLazy: a broker that owns something loses its session, and the loss is first noticed
+// by getOrCreateSession (Acquire of a resource it does not own) instead of monitorSession;
+// then the others take the expired leases and the broker tries again.
+func c18GenLazy(r *vRand) c18Case {
+	cs := c18Case{NB: r.Range(2, 3), Kind: []string{"plain", "partition", "group"}[r.Intn(3)]}
+	switch cs.Kind {
+	case "partition":
+		cs.Res = []string{"orders/0", "orders/1", "a/b/7"}
+	case "group":
+		cs.Res = []string{"g1", "grp/2", "g"}
+	default:
+		cs.Res = []string{"x", "y/1", "z"}
+	}
+	x := r.Intn(cs.NB)
+	y := (x + 1 + r.Intn(cs.NB-1)) % cs.NB
+	cs.Evs = c18Full(x, 0)
+	if r.Chance(40) {
+		cs.Evs = c18Cat(cs.Evs, c18Full(x, 1))
+	}
+	if r.Chance(30) {
+		cs.Evs = c18Cat(cs.Evs, c18Full(y, 2))
+	}
+	if r.Chance(25) {
+		cs.Evs = c18Cat(cs.Evs, []c18Ev{{K: "rellocal", B: x, R: 0}})
+	}
+	cs.Evs = c18Cat(cs.Evs, []c18Ev{{K: "expirelazy", B: x, R: 2}})
+	tail := [][]c18Ev{{{K: "acqtxn", B: x, R: 2}, {K: "reacqtxn", B: x, R: 2}, {K: "commit", B: x, R: 2}}, c18Full(y, 0), c18Full(x, 0), c18Full(y, 1)}
+	if r.Chance(30) {
+		tail = append(tail, []c18Ev{{K: "reldelete", B: x, R: 0}})
+	}
+	// random merge of the continuations
+	for {
+		var live []int
+		for i, sc := range tail {
+			if len(sc) > 0 {
+				live = append(live, i)
+			}
+		}
+		if len(live) == 0 {
+			break
+		}
+		i := live[r.Intn(len(live))]
+		cs.Evs = append(cs.Evs, tail[i][0])
+		tail[i] = tail[i][1:]
+	}
+	return cs
+}
+
 func c18Full(b, r int) []c18Ev {
 	return []c18Ev{{K: "acqbegin", B: b, R: r}, {K: "acqtxn", B: b, R: r}, {K: "reacqtxn", B: b, R: r}, {K: "commit", B: b, R: r}}
 }
@@ -1079,7 +1127,7 @@ func c18Tags(evs []c18Ev, obs []c18Obs) map[string]bool {
 }
 
 func TestVerifC18(t *testing.T) {
-	rep := vNewReport("C18", "generated schedules (60%: random merges of 3-10 Acquire / Release / fault scripts plus noise steps, up to ~60 events, over 2-3 brokers and 1-3 resources; 40%: one broker parked between two consecutive steps of an Acquire / reacquire / Release call, after a restart / half Release / expiry pre-state, while the others run complete operations and leases expire; plain, partition and group lease managers) of acquire steps / release halves / session expiry / ReleaseAll / restart / orphan-lease expiry executed on real LeaseManagers against one embedded etcd; non-trivial = a successful acquire plus an etcd step interleaved between the two halves of a Release, or a session expiry / restart; distinct = distinct executed event lists")
+	rep := vNewReport("C18", "generated schedules (60%: random merges of 3-10 Acquire / Release / fault scripts plus noise steps, up to ~60 events, over 2-3 brokers and 1-3 resources; 10%: a session loss first noticed by getOrCreateSession through an Acquire of another resource (monitorSession disabled for that session), then the others take the expired leases; 30%: one broker parked between two consecutive steps of an Acquire / reacquire / Release call, after a restart / half Release / expiry pre-state, while the others run complete operations and leases expire; plain, partition and group lease managers) of acquire steps / release halves / session expiry / ReleaseAll / restart / orphan-lease expiry executed on real LeaseManagers against one embedded etcd; non-trivial = a successful acquire plus an etcd step interleaved between the two halves of a Release, or a session expiry / restart; distinct = distinct executed event lists")
 	endpoints := testutil.StartEmbeddedEtcd(t)
 	root, err := clientv3.New(clientv3.Config{Endpoints: endpoints, DialTimeout: 5 * time.Second, Logger: zap.NewNop()})
 	if err != nil {
@@ -1131,7 +1179,9 @@ func TestVerifC18(t *testing.T) {
 		r := vNewRand(vSeed())
 		n := vN(300, 3000)
 		for i := 0; i < n; i++ {
-			if i%5 < 2 {
+			if i%10 == 9 {
+				runOne(c18GenLazy(r.Fork()))
+			} else if i%5 < 2 {
 				runOne(c18GenWindow(r.Fork()))
 			} else {
 				runOne(c18Gen(r.Fork()))
